@@ -145,6 +145,23 @@ def kv_models(src_codec, dst_codec, same_metric):
             return one(WrapOk(v) if type(v).__name__ == "PushCall" else mk_ok(v))
         return one(r)
 
+    @reg(r"^heed::Database::<.*>::get_(greater|lower)_than(_or_equal_to)?::<")
+    def _(eng, st, callee, a, ty):
+        k = concrete_key(eng, a[2])
+        name = callee.split("::<")[-2].split("::")[-1] if "::<" in callee else callee
+        greater, eq = "get_greater" in callee, "_or_equal_to" in callee
+        keys = sorted(st.env["kv"])
+        if greater:
+            c = [x for x in keys if x > k or (eq and x == k)]
+            hit = c[0] if c else None
+        else:
+            c = [x for x in keys if x < k or (eq and x == k)]
+            hit = c[-1] if c else None
+        st.env["log"].append(("seek", k, hit))
+        if hit is None:
+            return one(mk_ok(mk_option()))
+        return one(mk_ok(mk_option(Agg("tuple", None, {0: key_agg(hit), 1: st.env["kv"][hit]}))))
+
     @reg(r"^heed::Database::<.*>::prefix_iter(_mut)?::<")
     def _(eng, st, callee, a, ty):
         p = eng.deref(a[2])
@@ -261,7 +278,13 @@ def kv_models(src_codec, dst_codec, same_metric):
 
     @reg(r"^<ND as Distance>::new_header$")
     def _(eng, st, callee, a, ty):
-        return one(Opaque("header", {"metric": "ND"}))
+        v = eng.deref(a[0])
+        while isinstance(v, Ref):
+            v = eng.deref(v)
+        if isinstance(v, Agg) and v.kind == "Cow":
+            v = v.f[0]
+        of = v.data.get("stored") if isinstance(v, Opaque) and isinstance(v.data, dict) else None
+        return one(Opaque("header", {"metric": "ND", "of_stored": of}))
 
     return ms
 
@@ -373,6 +396,17 @@ def run_change(ctx, src_codec, dst_codec, same_metric, deadline, with_items=True
                             viol(f"item {k[2]}: the leaf was not re-encoded for the new metric", m)
                         continue
                     want = dim if dst_codec == "f32" else words(dim)
+                    of = hdr.data.get("of_stored")
+                    if of is None:
+                        res["unknown"].append(f"{label}: the header of item {k[2]} was not computed from a vector")
+                        continue
+                    ok, m = eng.check(f.pc, of != want)
+                    if ok:
+                        viol(f"the header of the re-encoded leaf was computed from a vector of "
+                             f"{m.eval(of, model_completion=True).as_long()} stored "
+                             f"{'floats' if dst_codec == 'f32' else 'words'}, not from the vector at the declared dimension "
+                             f"{m.eval(dim, model_completion=True).as_long()}", m)
+                        break
                     ok, m = eng.check(f.pc, stored != want)
                     if ok:
                         viol(f"the re-encoded leaf does not have the declared dimension: it stores "
@@ -533,7 +567,7 @@ def obligation(o, tier, seed):
 def metric_scenario(v):
     vals = v["values"]
     pair = {("f32", "f32"): ("euclidean", "cosine"), ("f32", "bq"): ("euclidean", "bq_euclidean"),
-            ("bq", "f32"): ("bq_euclidean", "euclidean"), ("bq", "bq"): ("bq_euclidean", "bq_cosine")}.get(
+            ("bq", "f32"): ("bq_euclidean", "cosine"), ("bq", "bq"): ("bq_euclidean", "bq_cosine")}.get(
         (vals.get("from"), vals.get("to")))
     if pair is None:
         return None
